@@ -54,9 +54,9 @@ func c11BuildPlan(variant int) (*c11Plan, error) {
 	defer s.close()
 	mine := func(name string, order int, ops ...int) (*types.WorkObject, error) {
 		for _, op := range ops {
-			if ok, _ := c10ApplyOp(s, op); !ok {
+			if ok, _ := c10ApplyOp(s, op); !ok && variant < 2 {
 				return nil, fmt.Errorf("%s: op %s not applicable", name, c10Ops[op])
-			}
+			} // further variants: an operation that is not applicable in this state is left out
 		}
 		blk, err := s.mine(core.VBuildOpts{Order: order, Fill: true})
 		if err != nil {
